@@ -279,7 +279,133 @@ func runParseWith(seed int64, p *ProgDef, argv []string, hook func(*Built)) *Par
 		Ctor(modeNames[pre.Root.Mode]), Bool(pre.Root.MapKeysToLower),
 		List(specs...), tNode(pre.Root, "", meta), List(st0...), Strs(argv), tFloatTable(tab, order),
 		errT, Strs(obs.Remaining), List(st1...), Str(obs.Writer))
+	if hook == nil && !obs.HasErr {
+		obs.subParseOracle(p, argv, pre)
+		obs.setValueOracle(b, pre)
+	}
 	return obs
+}
+
+// subParseOracle - C03 for Parse called on the GetOpt of a command (NewCommand returns one and its
+// Parse method is public): when the command line starts with the name of a first-level command,
+// parsing the rest with that command's own Parse must return the remaining list the program's Parse
+// returns for the whole line (nothing is given at the program's level, so its remaining list is the
+// command's).  Fresh definition; only when the command inherited the program's mode.
+func (obs *ParseObs) subParseOracle(p *ProgDef, argv []string, pre *getoptions.VerifDump) {
+	if len(argv) == 0 {
+		return
+	}
+	h := 0
+	for _, c := range obs.Key {
+		h = (h*37 + int(c)) % 1000003
+	}
+	if h%2 != 1 {
+		return
+	}
+	var node *getoptions.VerifNode
+	for i, k := range pre.Root.CommandKeys {
+		if k == argv[0] && k != p.HelpName {
+			node = pre.Root.Commands[i]
+		}
+	}
+	if node == nil || node.Mode != pre.Root.Mode {
+		return
+	}
+	b2, err := Build(p)
+	if err != nil {
+		return
+	}
+	sub := b2.Handles["/"+argv[0]]
+	if sub == nil {
+		return
+	}
+	for k, v := range p.Env {
+		os.Setenv(k, v)
+	}
+	defer func() {
+		for k := range p.Env {
+			os.Unsetenv(k)
+		}
+	}()
+	old := getoptions.Writer
+	getoptions.Writer = new(bytes.Buffer)
+	defer func() { getoptions.Writer = old }()
+	defer func() {
+		if x := recover(); x != nil {
+			obs.Oracle["C19"] = append(obs.Oracle["C19"], OracleHit{Key: "panic", What: fmt.Sprintf("Parse on the GetOpt of command %q panicked: %v", argv[0], x)})
+		}
+	}()
+	rem, perr := sub.Parse(argv[1:])
+	if perr != nil {
+		return
+	}
+	if fmt.Sprintf("%q", rem) != fmt.Sprintf("%q", obs.Remaining) && !(len(rem) == 0 && len(obs.Remaining) == 0) {
+		obs.Oracle["C03"] = append(obs.Oracle["C03"], OracleHit{Key: "sub-parse-remaining",
+			What: fmt.Sprintf("Parse(%q) on the program returned remaining %q; Parse(%q) on the GetOpt of command %q returned %q", argv, obs.Remaining, argv[1:], argv[0], rem)})
+	}
+}
+
+// setValueOracle - C06: Called(x) says whether x was given on the command line (or through its
+// environment variable or SetCalled) and CalledAs(x) which spelling was used last there.  Storing a
+// value through the API (SetValue) is none of these: it must leave both as Parse left them, for
+// every key of the option.  Runs after all observations of the case have been taken.
+func (obs *ParseObs) setValueOracle(b *Built, pre *getoptions.VerifDump) {
+	n := pre.Root
+	if len(n.OptionKeys) == 0 {
+		return
+	}
+	h := 0
+	for _, c := range obs.Key {
+		h = (h*31 + int(c)) % 1000003
+	}
+	if h%3 != 0 {
+		return
+	}
+	i := (h / 3) % len(n.OptionKeys)
+	key, id := n.OptionKeys[i], n.OptionIDs[i]
+	if id < 0 || id >= len(pre.Options) {
+		return
+	}
+	var vals []string
+	switch pre.Options[id].Kind {
+	case KBool, KIncr:
+	case KInt, KIntOpt, KIntRep:
+		vals = []string{"1"}
+	case KFloat, KFloatOpt, KFloatRep:
+		vals = []string{"1.5"}
+	case KMap:
+		vals = []string{"k=v"}
+	default:
+		vals = []string{"sv"}
+	}
+	type ca struct {
+		called bool
+		as     string
+	}
+	snap := func() map[string]ca {
+		m := map[string]ca{}
+		for j, k := range n.OptionKeys {
+			if n.OptionIDs[j] == id {
+				m[k] = ca{b.Opt.Called(k), b.Opt.CalledAs(k)}
+			}
+		}
+		return m
+	}
+	defer func() {
+		if x := recover(); x != nil {
+			obs.Oracle["C19"] = append(obs.Oracle["C19"], OracleHit{Key: "panic", What: fmt.Sprintf("SetValue(%q, %q) panicked: %v", key, vals, x)})
+		}
+	}()
+	before := snap()
+	_ = b.Opt.SetValue(key, vals...)
+	after := snap()
+	for k, v := range before {
+		if after[k] != v {
+			obs.Oracle["C06"] = append(obs.Oracle["C06"], OracleHit{Key: "setvalue-called",
+				What: fmt.Sprintf("after Parse, Called(%q)/CalledAs(%q) were %v/%q; SetValue(%q, %q) changed them to %v/%q", k, k, v.called, v.as, key, vals, after[k].called, after[k].as)})
+			return
+		}
+	}
 }
 
 func writeCoqCases(path string, terms []*T, mask string) error {
